@@ -391,6 +391,9 @@ func (c *HostClient) Do(ctx context.Context, req *protocol.Request, resp *protoc
 	atomic.AddInt32(&c.pendingRequests, 1)
 	vhook("do.enter", c, nil, nil)
 	req.Options().StartRequest()
+	// A body stream is consumed (and dropped) by the first write: whether the request can be sent
+	// again has to be known before the first attempt.
+	bodyIsStream := req.IsBodyStream()
 	for {
 		vgate("do.top")
 		select {
@@ -420,7 +423,7 @@ func (c *HostClient) Do(ctx context.Context, req *protocol.Request, resp *protoc
 		// keep-alive connection on timeout.
 		//
 		// Apache and nginx usually do this.
-		if canIdempotentRetry && client.DefaultRetryIf(req, resp, err) && errors.Is(err, errs.ErrBadPoolConn) {
+		if canIdempotentRetry && !bodyIsStream && client.DefaultRetryIf(req, resp, err) && errors.Is(err, errs.ErrBadPoolConn) {
 			connAttempts++
 			vhook("do.retry", c, nil, nil)
 			continue
